@@ -191,4 +191,15 @@ def replaceInObject (s : Nat → Bool) (checked cs : Bool) (key : Bytes) (obj : 
           | none => ⟨false, obj, some rep, a1⟩
           | some old => ⟨true, obj.withKids (obj.kids.set j rep), none, ⟨a1.next, a1.live - delFrees old⟩⟩
 
+/-! ### constructors -/
+
+/-- `cJSON_CreateString(str)`: the node, then the copy of the text; when the copy fails the node is deleted -/
+def createString (s : Nat → Bool) (str : Bytes) (a : A) : Option Item × A :=
+  match optAlloc s true a with
+  | (false, a1) => (none, a1)
+  | (true, a1) =>
+    match optAlloc s true a1 with
+    | (false, a2) => (none, ⟨a2.next, a2.live - 1⟩)
+    | (true, a2) => (some (.mk 16 false false 0 0 (some str) none []), a2)
+
 end Cjet.Cjson.TreeOps
